@@ -86,10 +86,10 @@ RefFaults(s) ==
       topaux == { [s EXCEPT ![e] = [@ EXCEPT !.refs = SetRefAux(@, r, Undef)]] :
                  <<e, r>> \in {<<e, r>> \in (1..Len(s)) \X (1..8) : r <= Len(s[e].refs) /\ s[e].refs[r].aux # ""} }
       loc == { [s EXCEPT ![e] = [@ EXCEPT !.locals = [@ EXCEPT ![l] = [@ EXCEPT !.refs = SetRefTo(@, r, Undef)]]]] :
-                 <<e, l, r>> \in {<<e, l, r>> \in (1..Len(s)) \X (1..8) \X (1..4) :
+                 <<e, l, r>> \in {<<e, l, r>> \in (1..Len(s)) \X (1..16) \X (1..4) :
                                     l <= Len(s[e].locals) /\ r <= Len(s[e].locals[l].refs)} }
       locaux == { [s EXCEPT ![e] = [@ EXCEPT !.locals = [@ EXCEPT ![l] = [@ EXCEPT !.refs = SetRefAux(@, r, Undef)]]]] :
-                 <<e, l, r>> \in {<<e, l, r>> \in (1..Len(s)) \X (1..8) \X (1..4) :
+                 <<e, l, r>> \in {<<e, l, r>> \in (1..Len(s)) \X (1..16) \X (1..4) :
                                     l <= Len(s[e].locals) /\ r <= Len(s[e].locals[l].refs) /\ s[e].locals[l].refs[r].aux # ""} }
   IN top \cup topaux \cup loc \cup locaux
 
@@ -97,9 +97,24 @@ RefFaults(s) ==
 DupFaults(s) ==
   LET ents == { Append(s, s[e]) : e \in {e \in 1..Len(s) : s[e].k \in GlobKinds \cup {"type", "comdat", "md"} /\ s[e].n # ""} }
       locs == { [s EXCEPT ![e] = [@ EXCEPT !.locals = Append(@, [@[l] EXCEPT !.refs = <<>>])]] :
-                  <<e, l>> \in {<<e, l>> \in (1..Len(s)) \X (1..8) : l <= Len(s[e].locals) /\ s[e].locals[l].n # ""
+                  <<e, l>> \in {<<e, l>> \in (1..Len(s)) \X (1..16) : l <= Len(s[e].locals) /\ s[e].locals[l].n # ""
                                                                        /\ s[e].locals[l].lk \in {"inst", "block"}} }
   IN ents \cup locs
+
+\* a definition that something refers to is deleted (the only way to leave an IMPLICIT reference --
+\* the bare `comdat` of a global -- without its target); unnamed globals after it are renumbered by
+\* the textual numbering, which Canon takes into account
+Referenced(s, e) ==
+  LET idx == IndexOf(s[e].k) IN
+  /\ idx \in {"type", "comdat", "glob", "md"}
+  /\ s[e].n # ""
+  /\ \E t \in {<<x, 0, r>> : <<x, r>> \in {<<x, r>> \in (1..Len(s)) \X (1..8) : r <= Len(s[x].refs)}}
+             \cup {<<x, l, r>> : <<x, l, r>> \in {<<x, l, r>> \in (1..Len(s)) \X (1..16) \X (1..4) : l <= Len(s[x].locals) /\ r <= Len(s[x].locals[l].refs)}} :
+        LET rf == IF t[2] = 0 THEN s[t[1]].refs[t[3]] ELSE s[t[1]].locals[t[2]].refs[t[3]] IN
+        /\ t[1] # e
+        /\ rf.to = s[e].n
+        /\ (RefClass(rf.rk) = idx \/ (RefClass(rf.rk) = "block" /\ idx = "glob"))
+DelFaults(s) == { [x \in 1..(Len(s) - 1) |-> IF x < e THEN s[x] ELSE s[x + 1]] : e \in {e \in 1..Len(s) : Referenced(s, e)} }
 
 \* two locals of one function given the same name: the later one is renamed after the earlier one
 \* and so are the references to it (the only fault left is the double definition)
@@ -110,11 +125,11 @@ RenameIn(ls, from, to) ==
                                                                         !.aux = IF RefClass(ls[l].refs[r].rk) = "local" /\ @ = from THEN to ELSE @]]]]
 ClashFaults(s) ==
   { [s EXCEPT ![e] = [@ EXCEPT !.locals = RenameIn(@, s[e].locals[l2].n, s[e].locals[l1].n)]] :
-      <<e, l1, l2>> \in {<<e, l1, l2>> \in (1..Len(s)) \X (1..8) \X (1..8) :
+      <<e, l1, l2>> \in {<<e, l1, l2>> \in (1..Len(s)) \X (1..16) \X (1..16) :
                             /\ l1 < l2 /\ l2 <= Len(s[e].locals)
                             /\ s[e].locals[l1].n # "" /\ s[e].locals[l2].n # "" /\ s[e].locals[l1].n # s[e].locals[l2].n
-                            /\ s[e].locals[l1].lk \in {"param", "inst", "invoke", "lpad", "block"}
-                            /\ s[e].locals[l2].lk \in {"param", "inst", "invoke", "lpad", "block"}} }
+                            /\ s[e].locals[l1].lk \in {"param", "inst", "invoke", "lpad", "block", "catchswitch", "catchpad", "cleanuppad"}
+                            /\ s[e].locals[l2].lk \in {"param", "inst", "invoke", "lpad", "block", "catchswitch", "catchpad", "cleanuppad"}} }
 
 \* references to locals and globals redirected to the quoted numeral "0": a NAME that must not be
 \* confused with the unnamed value %0 / @0 that the source may contain
@@ -122,7 +137,7 @@ QuotedFaults(s) ==
   LET top == { [s EXCEPT ![e] = [@ EXCEPT !.refs = SetRefTo(@, r, UndefQ)]] :
                  <<e, r>> \in {<<e, r>> \in (1..Len(s)) \X (1..8) : r <= Len(s[e].refs) /\ RefClass(s[e].refs[r].rk) = "glob"} }
       loc == { [s EXCEPT ![e] = [@ EXCEPT !.locals = [@ EXCEPT ![l] = [@ EXCEPT !.refs = SetRefTo(@, r, UndefQ)]]]] :
-                 <<e, l, r>> \in {<<e, l, r>> \in (1..Len(s)) \X (1..8) \X (1..4) :
+                 <<e, l, r>> \in {<<e, l, r>> \in (1..Len(s)) \X (1..16) \X (1..4) :
                                     l <= Len(s[e].locals) /\ r <= Len(s[e].locals[l].refs)
                                     /\ RefClass(s[e].locals[l].refs[r].rk) \in {"glob", "local"}} }
   IN top \cup loc
@@ -146,12 +161,12 @@ Perms(s) == { [x \in 1..Len(s) |-> s[p[x]]] : p \in {q \in CandPerms(Len(s)) : P
 PatternSet == {Patterns[k] : k \in 1..Len(Patterns)}
 AllSources ==
   CASE SourceSet = "patterns" -> PatternSet
-    [] SourceSet = "faults"   -> UNION {RefFaults(s) \cup DupFaults(s) \cup ClashFaults(s) \cup QuotedFaults(s) : s \in PatternSet}
+    [] SourceSet = "faults"   -> UNION {RefFaults(s) \cup DupFaults(s) \cup ClashFaults(s) \cup QuotedFaults(s) \cup DelFaults(s) : s \in PatternSet}
     [] SourceSet = "perms"    -> UNION {Perms(s) : s \in PatternSet}
     [] SourceSet = "faultperms" -> UNION {UNION {RefFaults(t) \cup DupFaults(t) \cup ClashFaults(t) : t \in Perms(s)} : s \in {u \in PatternSet : Len(u) <= 5}}
     [] SourceSet = "alias"    -> {AliasPatterns[k] : k \in 1..Len(AliasPatterns)}
                                   \cup UNION {RefFaults(AliasPatterns[k]) : k \in 1..Len(AliasPatterns)}
-    [] SourceSet = "all"      -> PatternSet \cup UNION {RefFaults(s) \cup DupFaults(s) \cup ClashFaults(s) \cup QuotedFaults(s) : s \in PatternSet}
+    [] SourceSet = "all"      -> PatternSet \cup UNION {RefFaults(s) \cup DupFaults(s) \cup ClashFaults(s) \cup QuotedFaults(s) \cup DelFaults(s) : s \in PatternSet}
                                   \cup {AliasPatterns[k] : k \in 1..Len(AliasPatterns)}
 
 ----------------------------------------------------------------------------
@@ -187,7 +202,7 @@ RefDefined(s, e, r) ==
                       ELSE Defined(s, "type", r.to) /\ Chase(s, r.to, {}) \notin {"undef", "cycle"}
     [] OTHER       -> Defined(s, c, r.to)
 AllRefs(s) == { <<e, 0, r>> : <<e, r>> \in {<<e, r>> \in (1..Len(s)) \X (1..8) : r <= Len(s[e].refs)} }
-              \cup { <<e, l, r>> : <<e, l, r>> \in {<<e, l, r>> \in (1..Len(s)) \X (1..8) \X (1..4) :
+              \cup { <<e, l, r>> : <<e, l, r>> \in {<<e, l, r>> \in (1..Len(s)) \X (1..16) \X (1..4) :
                                                      l <= Len(s[e].locals) /\ r <= Len(s[e].locals[l].refs)} }
 RefAt(s, t) == IF t[2] = 0 THEN s[t[1]].refs[t[3]] ELSE s[t[1]].locals[t[2]].refs[t[3]]
 HasUndef(s) == \E t \in AllRefs(s) : ~RefDefined(s, t[1], RefAt(s, t))
